@@ -1,7 +1,8 @@
 import Kaira.Proto
 import Kaira.Codes
+import Kaira.Decoders
 namespace Kaira.Verbs
-open Kaira Kaira.Proto Kaira.Codes
+open Kaira Kaira.Proto Kaira.Codes Kaira.Decoders
 
 structure CodeDef where
   n : Nat
@@ -41,6 +42,15 @@ def cfec (cs : CodeTable) (toks : List String) : Option String :=
   | ["inv", c, bits] => do
     let c ← findCode cs c; let bits ← bits? bits
     some (out (blockwise c.n c.k (invEncode c.R) bits))
+  | ["ml", c, bits] => do
+    let c ← findCode cs c; let bits ← bits? bits
+    some (out (blockwise c.n c.k (mlDecode c.G c.n c.k) bits))
+  | ["syndec", c, bits] => do
+    let c ← findCode cs c; let bits ← bits? bits
+    some (out (blockwise c.n c.k (synDecode c.HT c.R c.n) bits))
+  | ["haminv", c, info, bits] => do
+    let c ← findCode cs c; let bits ← bits? bits; let info ← natList? info
+    some (out (blockwise c.n c.k (hammingInverse c.HT info) bits))
   | ["synz", c, bits] => do
     let c ← findCode cs c; let bits ← bits? bits
     match blockwise c.n c.r (syndrome c.HT) bits with
